@@ -229,6 +229,28 @@ func checkSignMerge(c *fw.Ctx, sign *ssa.Function) {
 						if !isIf {
 							continue
 						}
+						// "entry == nil" form: the fresh map sits on the nil edge of a test of the signer's entry
+						if nv, trueMeansNil, isNil := fw.NilCheck(iff.Cond); isNil {
+							var lk *ssa.Lookup
+							switch x := fw.Unwrap(nv).(type) {
+							case *ssa.Lookup:
+								lk = x
+							case *ssa.Extract:
+								if l2, isL := x.Tuple.(*ssa.Lookup); isL && x.Index == 0 {
+									lk = l2
+								}
+							}
+							if lk != nil && isParam(fw.Unwrap(lk.Index), sign, 0) {
+								nilSucc := id.Succs[1]
+								if trueMeansNil {
+									nilSucc = id.Succs[0]
+								}
+								if nilSucc == d && len(d.Preds) == 1 {
+									guarded = true
+								}
+							}
+							continue
+						}
 						cv, neg := fw.BoolCond(iff.Cond)
 						ex, isEx := cv.(*ssa.Extract)
 						if !isEx || ex.Index != 1 {
